@@ -22,6 +22,7 @@ struct ChunkReader<'a> {
     sched: Box<dyn FnMut(usize, usize) -> usize + 'a>, // (remaining, offered) -> wanted
     log: SharedLog,
     reads: u64,
+    eof_reads: u64,
 }
 impl<'a> Read for ChunkReader<'a> {
     fn read(&mut self, buf: &mut [u8]) -> std::io::Result<usize> {
@@ -31,6 +32,13 @@ impl<'a> Read for ChunkReader<'a> {
             return Err(std::io::Error::other("VERIF: read budget exhausted"));
         }
         let rem = self.data.len() - self.pos;
+        if rem == 0 {
+            // a loop that keeps asking after the end of input has been signalled a few dozen times is not going to stop
+            self.eof_reads += 1;
+            if self.eof_reads > 64 {
+                return Err(std::io::Error::other("VERIF: read budget exhausted"));
+            }
+        }
         let want = (self.sched)(rem, buf.len()).max(1);
         let n = want.min(rem).min(buf.len());
         buf[..n].copy_from_slice(&self.data[self.pos..self.pos + n]);
@@ -70,7 +78,15 @@ fn eol(rng: &mut StdRng, style: u8) -> &'static [u8] {
 fn hexnum(rng: &mut StdRng) -> String {
     match rng.gen_range(0..12) {
         0 => "0".into(), 1 => "ffffffff".into(), 2 => "ffffffffffffffff".into(), 3 => "1ffffffffffffffff".into(), // one digit too many
-        4 => "100000000".into(), _ => format!("{:x}", rng.gen_range(0..0x100000u64)),
+        4 => "100000000".into(), 5 => "ffffffffffffffffffffffff".into(), 6 => "123456789abcdef0123456789abcdef0123456789".into(),
+        _ => format!("{:x}", rng.gen_range(0..0x100000u64)),
+    }
+}
+/// decimal fields (line and file numbers): small, at the u32 edge, and far too many digits
+fn decnum(rng: &mut StdRng, small: u64) -> String {
+    match rng.gen_range(0..10) {
+        0 => "4294967295".into(), 1 => "4294967296".into(), 2 => "99999999999".into(), 3 => "18446744073709551615".into(), 4 => "18446744073709551616".into(),
+        5 => "99999999999999999999".into(), 6 => "123456789012345678901234567890".into(), _ => small.to_string(),
     }
 }
 /// A long-name length class around the buffer thresholds (10/20/40/80/160 KiB).
@@ -215,6 +231,7 @@ fn gen_file(rng: &mut StdRng, kind: u32) -> Gen {
             b.extend_from_slice(eol(rng, style));
             for j in 0..rng.gen_range(0..6u64) {
                 if rng.gen_bool(0.15) { b.extend_from_slice(format!("INLINE 0 {} 0 0 {:x} 4", j + 1, addr + j * 8).as_bytes()); }
+                else if weird_nums { b.extend_from_slice(format!("{:x} {:x} {} {}", addr + j * 8, 8, decnum(rng, j + 10), decnum(rng, 0)).as_bytes()); }
                 else { b.extend_from_slice(format!("{:x} {:x} {} 0", addr + j * 8, if rng.gen_bool(0.1) { 0 } else { 8 }, j + 10).as_bytes()); }
                 b.extend_from_slice(eol(rng, style));
             }
@@ -270,11 +287,102 @@ fn render_model_input(nls: &[usize], len: usize) -> Vec<u8> {
     b
 }
 
+/// Runs with an id at or below this are generated (so that the seeded generator stays in step) but not executed: a child that
+/// replaces one killed for spinning starts after the run that spun.
+static SKIP_UNTIL: std::sync::atomic::AtomicU64 = std::sync::atomic::AtomicU64::new(0);
+
 fn main() {
-    if std::env::args().nth(1).as_deref() == Some("beh") {
-        return main_beh(&std::env::args().nth(2).unwrap());
+    let args: Vec<String> = std::env::args().collect();
+    if args.get(1).map(|s| s.as_str()) == Some("--child") {
+        SKIP_UNTIL.store(args[2].parse().unwrap(), std::sync::atomic::Ordering::SeqCst);
+        if args.get(3).map(|s| s.as_str()) == Some("beh") {
+            return main_beh(&args[4]);
+        }
+        return main_random(args.get(3).map(|s| s.parse().unwrap()).unwrap_or(30000));
     }
-    main_random()
+    supervise(&args[1..]);
+}
+
+/// The parse loop under test may spin without ever reading again, which no reader can observe.  The recorder therefore runs as a
+/// child process; the parent forwards its event lines and, when the child has been silent for 10 s inside a run, kills it, closes
+/// the run with out = "hang" and starts a new child after that run.
+fn supervise(rest: &[String]) {
+    use std::io::BufRead;
+    let exe = std::env::current_exe().unwrap();
+    let out = std::io::stdout();
+    let mut skip = 0u64;
+    let mut hangs = 0u32;
+    loop {
+        let mut child = std::process::Command::new(&exe).arg("--child").arg(skip.to_string()).args(rest).stdout(std::process::Stdio::piped()).spawn().expect("spawn recorder child");
+        let stdout = child.stdout.take().unwrap();
+        let (tx, rx) = std::sync::mpsc::channel::<String>();
+        let rd = std::thread::spawn(move || {
+            let mut r = std::io::BufReader::with_capacity(1 << 20, stdout);
+            loop {
+                let mut line = String::new();
+                match r.read_line(&mut line) {
+                    Ok(0) | Err(_) => break,
+                    Ok(_) => { if !line.ends_with('\n') { break; } if tx.send(line).is_err() { break; } }
+                }
+            }
+        });
+        let mut open_run: Option<u64> = None;      // a run has begun and not ended
+        let mut started = false;                  // its Start event has been forwarded
+        let mut open_len = 0u64;
+        let mut hung = false;
+        loop {
+            match rx.recv_timeout(std::time::Duration::from_secs(10)) {
+                Ok(line) => {
+                    if let Some(r) = line.strip_prefix("#BEGIN ") {
+                        let mut it = r.trim().split(' ');
+                        open_run = it.next().and_then(|n| n.parse().ok());
+                        open_len = it.next().and_then(|n| n.parse().ok()).unwrap_or(0);
+                        started = false;
+                        continue;
+                    }
+                    if line.starts_with("{\"ev\":\"Start\"") {
+                        started = true;
+                    } else if line.starts_with("{\"ev\":\"End\"") {
+                        open_run = None;
+                    }
+                    let mut o = out.lock();
+                    o.write_all(line.as_bytes()).unwrap();
+                }
+                Err(std::sync::mpsc::RecvTimeoutError::Timeout) => {
+                    if open_run.is_some() { hung = true; let _ = child.kill(); break; }
+                    // silent between runs (generating a large file): keep waiting
+                }
+                Err(std::sync::mpsc::RecvTimeoutError::Disconnected) => break,
+            }
+        }
+        let _ = child.wait();
+        let _ = rd.join();
+        if hung {
+            let mut o = out.lock();
+            if !started {
+                writeln!(o, "{{\"ev\":\"Start\",\"id\":{},\"len\":{},\"nls\":[],\"maxline\":0,\"whole\":\"hang\",\"expect_ok\":0,\"mode\":99}}", open_run.unwrap(), open_len).unwrap();
+            }
+            writeln!(o, "{{\"ev\":\"End\",\"out\":\"hang\",\"line\":0,\"same\":1}}").unwrap();
+            skip = open_run.unwrap();
+            hangs += 1;
+            if hangs >= 3 {
+                break; // three runs that never end settle the verdict; waiting for hundreds more would only burn the clock
+            }
+            continue;
+        }
+        if let Some(id) = open_run {
+            // the child died inside a run without spinning (abort): close the run as a panic and go on after it
+            let mut o = out.lock();
+            if !started {
+                writeln!(o, "{{\"ev\":\"Start\",\"id\":{},\"len\":{},\"nls\":[],\"maxline\":0,\"whole\":\"panic\",\"expect_ok\":0,\"mode\":99}}", id, open_len).unwrap();
+            }
+            writeln!(o, "{{\"ev\":\"End\",\"out\":\"panic\",\"line\":0,\"same\":1}}").unwrap();
+            skip = id;
+            continue;
+        }
+        break;
+    }
+    out.lock().flush().unwrap();
 }
 
 /// spec -> impl: run the chunk schedules TLC enumerated (at scale) on the real parser and log the same events.
@@ -301,6 +409,15 @@ fn main_beh(path: &str) {
 }
 
 fn run_one<'a>(log: &SharedLog, id: u64, data: &'a [u8], expect_ok: bool, mode: u32, sched: Box<dyn FnMut(usize, usize) -> usize + 'a>) {
+    if id <= SKIP_UNTIL.load(std::sync::atomic::Ordering::SeqCst) {
+        return;
+    }
+    {
+        // tell the supervisor which run begins (the whole-buffer parse below goes through the same loop and may spin as well)
+        let mut l = log.borrow_mut();
+        writeln!(l.out, "#BEGIN {} {}", id, data.len()).unwrap();
+        l.out.flush().unwrap();
+    }
     let whole = vharness::guarded(|| SymbolFile::from_bytes(data));
     let (wout, _wline) = match &whole { Ok(r) => outcome(r), Err(_) => ("panic", 0) };
     let nls: Vec<usize> = data.iter().enumerate().filter(|(_, &c)| c == b'\n').map(|(i, _)| i + 1).collect();
@@ -313,8 +430,9 @@ fn run_one<'a>(log: &SharedLog, id: u64, data: &'a [u8], expect_ok: bool, mode: 
         writeln!(l.out, "{{\"ev\":\"Start\",\"id\":{},\"len\":{},\"nls\":{},\"maxline\":{},\"whole\":\"{}\",\"expect_ok\":{},\"mode\":{}}}",
                  id, data.len(), nls_json, maxline, wout, if expect_ok && maxline != 0 { 1 } else { 0 }, mode).unwrap();
         l.events += 1;
+        l.out.flush().unwrap(); // the supervisor must know which run is open
     }
-    let reader = ChunkReader { data, pos: 0, sched, log: log.clone(), reads: 0 };
+    let reader = ChunkReader { data, pos: 0, sched, log: log.clone(), reads: 0, eof_reads: 0 };
     let fed = Rc::new(RefCell::new(0usize));
     let (fed2, log2) = (fed.clone(), log.clone());
     let res = vharness::guarded(move || {
@@ -340,13 +458,48 @@ fn run_one<'a>(log: &SharedLog, id: u64, data: &'a [u8], expect_ok: bool, mode: 
     l.events += 1;
 }
 
-fn main_random() {
-    let budget: u64 = std::env::args().nth(1).map(|s| s.parse().unwrap()).unwrap_or(30000);
+fn main_random(budget: u64) {
     let mut rng = StdRng::seed_from_u64(vharness::seed() ^ 0xC10);
     let log: SharedLog = Rc::new(RefCell::new(Log { out: std::io::BufWriter::new(std::io::stdout()), events: 0 }));
     vharness::install_panic_capture();
     let mut id = 0u64;
     let mut kind = 0u32;
+    // ---- deterministic families first: every two-way split of small files with blank lines / CRLF / no final newline, and
+    // over-long lines followed by a short unterminated tail that arrives in the same read as the end of the long line
+    let small: Vec<(&[u8], bool)> = vec![
+        (b"MODULE Linux x86_64 000 a\n\nFUNC 10 10 0 f\n10 10 1 0\n\nPUBLIC 50 0 p\n", true),
+        (b"MODULE Linux x86_64 000 a\r\n\r\nFUNC 10 10 0 f\r\n10 10 1 0\r\n\r\nPUBLIC 50 0 p\r\n", true),
+        (b"MODULE Linux x86_64 000 a\nFUNC 10 10 0 f\n\n\n\nPUBLIC 50 0 p", false),
+        (b"\nMODULE Linux x86_64 000 a\nPUBLIC 50 0 p\n", false),
+        (b"MODULE Linux x86_64 000 a\nSTACK CFI INIT 10 10 .cfa: $rsp 8 +\n\nSTACK CFI 12 .cfa: $rsp 16 +\nPUBLIC 50 0 p\n\n", false),
+        (b"MODULE Linux x86_64 000 a\nFUNC 10 10 0 f\n10 10 99999999999999999999 0\n", false),
+    ];
+    for (data, expect_ok) in &small {
+        for s in 0..=data.len() {
+            for extra in [false, true] {
+                id += 1;
+                let mut step = 0;
+                let sched: Box<dyn FnMut(usize, usize) -> usize> = Box::new(move |_r, _o| { step += 1; if step == 1 { s.max(1) } else if step == 2 && extra { 1 } else { usize::MAX } });
+                run_one(&log, id, data, *expect_ok, 8, sched);
+            }
+        }
+    }
+    for (k, long) in [163_841usize, 163_840 + 200, 170_000, 200_000, 163_839].iter().enumerate() {
+        for tail in [&b"PUBLIC 1 0 t"[..], &b"x"[..], &b"PUBLIC 1 0 t\n"[..]] {
+            let mut data: Vec<u8> = b"MODULE Linux x86_64 000 a\nPUBLIC 10 0 ".to_vec();
+            data.extend(std::iter::repeat(b'n').take(*long));
+            data.push(b'\n');
+            data.extend_from_slice(tail);
+            let n = data.len();
+            for cut in [0usize, tail.len() + 1 + 10, tail.len() + 1, tail.len(), 1] {
+                id += 1;
+                let first = n.saturating_sub(cut);
+                let mut step = 0;
+                let sched: Box<dyn FnMut(usize, usize) -> usize> = Box::new(move |_r, o| { step += 1; if cut == 0 { o } else if step == 1 { first.max(1) } else { usize::MAX } });
+                run_one(&log, id, &data, false, 9 + k as u32, sched);
+            }
+        }
+    }
     while log.borrow().events < budget {
         kind += 1;
         let g = gen_file(&mut rng, kind);
